@@ -22,6 +22,8 @@ enum Op {
     StopAndRecord(usize),
     StopAndDiscard(usize),
     Drop(usize),
+    /// dropped by a destructor that runs while the thread unwinds from a panic
+    DropUnwinding(usize),
     DropOnThread(usize),
     /// observe_closure_duration with a closure during which the clock moves by TICKS[k]
     Closure(usize),
@@ -58,7 +60,7 @@ impl Sut for TimerSut {
         for o in hist {
             match o {
                 Op::Start(i) => live[*i] = true,
-                Op::ObserveDuration(i) | Op::StopAndRecord(i) | Op::StopAndDiscard(i) | Op::Drop(i) | Op::DropOnThread(i) => live[*i] = false,
+                Op::ObserveDuration(i) | Op::StopAndRecord(i) | Op::StopAndDiscard(i) | Op::Drop(i) | Op::DropUnwinding(i) | Op::DropOnThread(i) => live[*i] = false,
                 _ => {}
             }
         }
@@ -71,9 +73,12 @@ impl Sut for TimerSut {
         for i in 0..TIMERS {
             if live[i] {
                 v.extend([Op::StopAndRecord(i), Op::StopAndDiscard(i), Op::Drop(i), Op::ObserveDuration(i), Op::DropOnThread(i)]);
+                if i == 0 {
+                    v.push(Op::DropUnwinding(i));
+                }
             }
         }
-        v.extend([Op::Tick(1), Op::Tick(2), Op::Closure(0), Op::Closure(1)]);
+        v.extend([Op::Tick(1), Op::Tick(2), Op::Closure(0), Op::Closure(2), Op::Closure(1)]);
         if self.local {
             v.push(Op::FlushLocal);
         }
@@ -133,6 +138,20 @@ impl Sut for TimerSut {
                 }
                 Op::Drop(i) => {
                     drop(timers[*i].take());
+                    expect_obs = Some(secs(now - starts[*i].take().unwrap()));
+                }
+                Op::DropUnwinding(i) => {
+                    struct Guard(Option<T>);
+                    impl Drop for Guard {
+                        fn drop(&mut self) {
+                            drop(self.0.take());
+                        }
+                    }
+                    let g = Guard(timers[*i].take());
+                    let _ = std::panic::catch_unwind(std::panic::AssertUnwindSafe(move || {
+                        let _g = g;
+                        std::panic::resume_unwind(Box::new("deliberate unwinding"));
+                    }));
                     expect_obs = Some(secs(now - starts[*i].take().unwrap()));
                 }
                 Op::DropOnThread(i) => {
@@ -247,7 +266,7 @@ fn main() {
     }
     let d = if thorough { 6 } else { 5 };
     let md = if thorough { 9 } else { 7 };
-    rep.rule = format!("explicit-state BFS (stateright) over all histories up to depth {} (no merging) and depth {} (merging equal (clock, start times, histogram) states) of {{start, observe_duration, stop_and_record, stop_and_discard, drop, drop on a spawned-and-joined thread, observe_closure_duration (clock moves inside the closure), tick(+0.5s/-1s/+2s)}} over <=3 timers, for timers of a shared Histogram and of a LocalHistogram; virtual clock through the verif time seam; after every step the shared histogram must have grown by exactly one observation of max(now-start,0) seconds, or by none. distinct = unique states", d, md);
+    rep.rule = format!("explicit-state BFS (stateright) over all histories up to depth {} (no merging) and depth {} (merging equal (clock, start times, histogram) states) of {{start, observe_duration, stop_and_record, stop_and_discard, drop, drop during unwinding, drop on a spawned-and-joined thread, observe_closure_duration (clock moves inside the closure), tick(+0.5s/-1s/+2s)}} over <=3 timers, for timers of a shared Histogram and of a LocalHistogram; virtual clock through the verif time seam; after every step the shared histogram must have grown by exactly one observation of max(now-start,0) seconds, or by none. distinct = unique states", d, md);
     rep.bounds = json!({"depth_unmerged": d, "depth_merged": md, "timers": TIMERS, "ticks_ns": TICKS});
     let t = if thorough { 900 } else { 100 };
     explore(TimerSut { local: false, merge: false }, d, t, "shared-timers", &mut rep);
